@@ -27,6 +27,7 @@ class BFSFamily(Family):
     depth_cap = 4
     max_states = 200000
     timeout = 20.0
+    stop_after_violations = 60
 
     def events(self, tier):
         raise NotImplementedError
@@ -60,9 +61,17 @@ class BFSFamily(Family):
         frontier = collections.deque([[]])
         maxdepth = 0
         closed = True
-        while frontier:
+        stopped = False
+        while frontier and not stopped:
             hist = frontier.popleft()
             for i, ev in enumerate(evs):
+                if st.nviolations >= self.stop_after_violations:
+                    # a broken tree can blow the state space up; the violations found so far are the verdict
+                    st.exhaustive = False
+                    st.cap_note = 'search stopped after %d violations' % st.nviolations
+                    closed = False
+                    stopped = True
+                    break
                 if not hist and (i % W) != w:
                     continue
                 nh = hist + [i]
